@@ -306,7 +306,60 @@ func RouterAddress(r *core.Rand) rm.RouterAddress {
 		a.Style = []byte("NTCP")
 	}
 	a.Options = SmallMapping(r)
+	if r.Chance(1, 5) {
+		// the options routers publish: host / port / static key / IV / capabilities / version / MTU,
+		// and SSU introducer slots 0-2 (hash, expiration, tag) - complete and with one part missing
+		var ps []rm.Pair
+		put := func(k string, v []byte) { ps = append(ps, rm.Pair{K: []byte(k), V: v}) }
+		if r.Chance(4, 5) {
+			put("host", []byte([]string{"1.2.3.4", "2001:db8::1", "::ffff:10.0.0.1", "192.168.100.200"}[r.Pick(4)]))
+		}
+		if r.Chance(4, 5) {
+			put("port", []byte(fmt.Sprint(1+r.Pick(65535))))
+		}
+		if r.Chance(1, 2) {
+			put("s", r.Bytes(32))
+			put("i", r.Bytes(16))
+		}
+		if r.Chance(1, 2) {
+			put("caps", []byte([]string{"BC", "4", "6", "46", "B"}[r.Pick(5)]))
+		}
+		if r.Chance(1, 2) {
+			put("v", []byte("2"))
+			put("mtu", []byte(fmt.Sprint(1280+r.Pick(220))))
+		}
+		for slot := 0; slot < 3; slot++ {
+			if !r.Chance(1, 2) {
+				continue
+			}
+			skip := r.Pick(5) // 0-2: leave one part out, else complete
+			if skip != 0 {
+				put(fmt.Sprintf("ih%d", slot), []byte(b64ish(r, 44)))
+			}
+			if skip != 1 {
+				put(fmt.Sprintf("iexp%d", slot), []byte(fmt.Sprint(1700000000+r.Pick(100000000))))
+			}
+			if skip != 2 {
+				put(fmt.Sprintf("itag%d", slot), []byte(fmt.Sprint(r.Uint32())))
+			}
+		}
+		sort.SliceStable(ps, func(i, j int) bool { return string(ps[i].K) < string(ps[j].K) })
+		a.Options = rm.Mapping{Pairs: ps}
+	}
 	return a
+}
+
+// b64ish: n characters of the I2P base64 alphabet (what an introducer hash looks like), or fewer
+func b64ish(r *core.Rand, n int) string {
+	const alpha = "ABCDEFGHIJKLMNOPQRSTUVWXYZabcdefghijklmnopqrstuvwxyz0123456789-~"
+	if r.Chance(1, 4) {
+		n = r.Pick(n)
+	}
+	b := make([]byte, n)
+	for i := range b {
+		b[i] = alpha[r.Pick(len(alpha))]
+	}
+	return string(b)
 }
 
 func RouterInfo(r *core.Rand) (rm.RouterInfo, Shape) {
